@@ -44,6 +44,11 @@ FORMS = {
     "comptime-tuple":  "@guppy\ndef main() -> {T}:\n    t: tuple[{T}, int] = comptime(({L}, 1))\n    return t[0]\n",
     "comptime-list":   "from guppylang.std.array import frozenarray\n\n@guppy\ndef main() -> {T}:\n"
                        "    xs: frozenarray[{T}, 1] = comptime([{L}])\n    return xs[0]\n",
+    "comptime-list-later": "from guppylang.std.array import frozenarray\n\n@guppy\ndef main() -> {T}:\n"
+                           "    xs: frozenarray[{T}, 3] = comptime([0, 1, {L}])\n    return xs[2]\n",
+    "comptime-nested-list": "from guppylang.std.array import frozenarray\n\n@guppy\ndef main() -> {T}:\n"
+                            "    t: tuple[int, frozenarray[{T}, 2]] = comptime((7, [1, {L}]))\n    return t[1][1]\n",
+    "comptime-tuple-later": "@guppy\ndef main() -> {T}:\n    t: tuple[int, {T}] = comptime((1, {L}))\n    return t[1]\n",
     "argument":        "@guppy\ndef idf(v: {T}) -> {T}:\n    return v\n\n@guppy\ndef main() -> {T}:\n    return idf({L})\n",
     "array-element":   "@guppy\ndef main() -> {T}:\n    xs: array[{T}, 2] = array({L}, 0)\n    return xs[0]\n",
     "arith":           "@guppy\ndef main(z: {T}) -> {T}:\n    v: {T} = {L}\n    return v + z\n",
